@@ -214,7 +214,7 @@ def tlc(ctx, sub, module, cfg_kwargs, env=None, workers=16, timeout=3600, deque=
 
 def tlc_error_excerpt(out, n=25):
     lines = [l for l in out.splitlines() if not l.startswith("Linting") and not l.startswith("Semantic processing")
-             and not l.startswith("Parsing file")]
+             and not l.startswith("Parsing file") and not l.startswith('<<"CASE"')]
     for i, l in enumerate(lines):
         if l.startswith("Error:") or "xception" in l:
             return "\n".join(lines[i:i + n])[:3000]
